@@ -28,7 +28,9 @@ CLAIMED = {
     "C20": dict(
         text="Theorems C20_distinct_slots (invariant over ALL map/unmap sequences, any FMMU count, by induction on the operation list), C20_takes_free, "
              "C20_full_fails, C20_release_own about a model of Terminal.map_fmmu that keeps Python's reversed-slice clipping, list.index and negative-index "
-             "assignment semantics; tied to the code by running random (thorough: exhaustive to length 5) operation sequences through the real async context manager.",
+             "assignment semantics; tied to the code by running random (thorough: exhaustive to length 5) operation sequences through the real async context manager. Several sync groups sharing one terminal have their own model (Ecat/FmmuGroup.v: SyncGroupBase.map_fmmu, output then input image in one exit stack) with "
+             "C20_refused_group_restores (a refused group - also after its output image was already mapped - leaves the bookings exactly as it found them) and "
+             "C20_accepted_group (only free, distinct FMMUs, nothing else changes); tied by scripts of whole groups through the real SyncGroupBase.map_fmmu.",
         note=TB + "Modelled: slot choice and release in Terminal.map_fmmu; the FMMU register writes are assumed to succeed (failure paths belong to C24).",
         technique="Coq invariant proof over operation sequences + differential correspondence",
         ref="5/C20"),
